@@ -255,6 +255,79 @@ Definition wf_heffb (woff : nat) (ket op : store) (n : id) : bool :=
   | None => false
   end.
 
+(* ---- well-formedness for a link update: the state holds the link node l between a and b, the operator does not ----------- *)
+Section WFL.
+  Variables (woff : nat) (ket op : store).
+
+  (* an end n of the edge: its ket neighbour towards the other end is the link node l, its operator neighbour is the
+     other end m itself; the remaining neighbours cs (ket order) are the same in both, in independent orders *)
+  Definition node_okL (l m n : id) (cs : list id) : Prop :=
+    exists kn on pre post,
+      aget n (nodes ket) = Some kn /\ aget n (nodes op) = Some on /\
+      neighbouring_nodes kn = pre ++ l :: post /\
+      NoDup (pre ++ l :: post) /\
+      Permutation (neighbouring_nodes on) (m :: pre ++ post) /\
+      NoDup (m :: pre ++ post) /\
+      cs = pre ++ post /\
+      t_axes ket n = map (ewire ket n) (neighbouring_nodes kn) ++ [open_wire ket n] /\
+      t_axes op n = map (ewire op n) (neighbouring_nodes on) ++ [out_wire op n; in_wire op n] /\
+      (forall c, In c cs -> ewire ket c n = ewire ket n c /\ ewire op c n = ewire op n c) /\
+      open_wire ket n <> in_wire op n /\
+      out_wire op n <> woff + open_wire ket n.
+
+  Definition wf_end (l m : id) (t : rt) : Prop :=
+    node_okL l m (rid t) (map rid (rcs t)) /\ forall c, In c (rcs t) -> wf_env woff ket op (Some (rid t)) c.
+
+  (* ta / tb: what lies behind a / b seen from the link node; the link node is not the root, has one child, two legs
+     and no open leg; a, b are its parent and child in either order *)
+  Definition wf_link (a b l : id) (ta tb : rt) : Prop :=
+    rid ta = a /\ rid tb = b /\ NoDup (rnodes ta ++ rnodes tb) /\
+    wf_end l b ta /\ wf_end l a tb /\
+    (exists ln q c, aget l (nodes ket) = Some ln /\ parent ln = Some q /\ children ln = [c] /\
+                    ((q = a /\ c = b) \/ (q = b /\ c = a)) /\
+                    t_axes ket l = [ewire ket l q; ewire ket l c]) /\
+    ewire ket a l = ewire ket l a /\ ewire ket b l = ewire ket l b /\ ewire op a b = ewire op b a.
+End WFL.
+
+Definition node_okLb (woff : nat) (ket op : store) (l m n : id) (cs : list id) : bool :=
+  match aget n (nodes ket), aget n (nodes op) with
+  | Some kn, Some on =>
+      nodupb (neighbouring_nodes kn) && memb l (neighbouring_nodes kn) &&
+      perm_of_nodupb (neighbouring_nodes on) (m :: others l (neighbouring_nodes kn)) &&
+      nodupb (m :: others l (neighbouring_nodes kn)) &&
+      list_eqb cs (others l (neighbouring_nodes kn)) &&
+      list_eqb (t_axes ket n) (map (ewire ket n) (neighbouring_nodes kn) ++ [open_wire ket n]) &&
+      list_eqb (t_axes op n) (map (ewire op n) (neighbouring_nodes on) ++ [out_wire op n; in_wire op n]) &&
+      forallb (fun c => Nat.eqb (ewire ket c n) (ewire ket n c) && Nat.eqb (ewire op c n) (ewire op n c)) cs &&
+      negb (Nat.eqb (open_wire ket n) (in_wire op n)) &&
+      negb (Nat.eqb (out_wire op n) (woff + open_wire ket n))
+  | _, _ => false
+  end.
+
+Definition wf_endb (woff : nat) (ket op : store) (l m : id) (t : rt) : bool :=
+  node_okLb woff ket op l m (rid t) (map rid (rcs t)) && forallb (wf_envb woff ket op (Some (rid t))) (rcs t).
+
+Definition wf_linkb (woff : nat) (ket op : store) (a b l : id) : bool :=
+  match tree_from (S (length (nodes ket))) ket (Some l) a, tree_from (S (length (nodes ket))) ket (Some l) b, aget l (nodes ket) with
+  | Some ta, Some tb, Some ln =>
+      Nat.eqb (rid ta) a && Nat.eqb (rid tb) b && nodupb (rnodes ta ++ rnodes tb) &&
+      wf_endb woff ket op l b ta && wf_endb woff ket op l a tb &&
+      match parent ln, children ln with
+      | Some q, [c] =>
+          ((Nat.eqb q a && Nat.eqb c b) || (Nat.eqb q b && Nat.eqb c a)) &&
+          list_eqb (t_axes ket l) [ewire ket l q; ewire ket l c]
+      | _, _ => false
+      end &&
+      Nat.eqb (ewire ket a l) (ewire ket l a) && Nat.eqb (ewire ket b l) (ewire ket l b) && Nat.eqb (ewire op a b) (ewire op b a)
+  | _, _, _ => false
+  end.
+
+Definition link_expected (woff aoff : nat) (ket op : store) (a b l : id) (ta tb : rt) :=
+  (map (Nat.add woff) (t_axes ket l) ++ t_axes ket l,
+   all_atoms3 aoff ket op (rnodes ta ++ rnodes tb),
+   ewire op a b :: flat_map (edge3 woff ket op) (sub_edges ta ++ sub_edges tb) ++ inner_bnd3 woff ket op (rnodes ta ++ rnodes tb),
+   open_pairs3 woff ket op (rnodes ta ++ rnodes tb)).
+
 (* ---- what the harness evaluates per observed update -------------------------------------------------------------------- *)
 (* results are printed as binary numbers (printing unary numerals of the size of the offsets is slow) *)
 Definition nlist (l : list nat) : list N := map N.of_nat l.
@@ -280,5 +353,5 @@ Definition link_case (kops oops : list op) (ooff oaoff woff aoff : nat) (a b l :
   let ket := fst rk in
   let op := fst ro in
   (all_true (snd rk) && all_true (snd ro),
-   link_ok woff aoff ket op a b l,
+   wf_linkb woff ket op a b l, link_ok woff aoff ket op a b l,
    option_map summary_n (heff_link woff aoff ket op a b l), atab_n ket, atab_n op).
